@@ -83,3 +83,29 @@ Print Assumptions c18_unquoted_value.
 Example c18_quoted_escaper_unquoted_refuted :
   unq_safe (tmpl_escape [120; 32; 111; 110; 120; 61; 49]) = false.
 Proof. reflexivity. Qed.
+
+
+(* ---- hand-built attributes (NAME= + value concatenated by keymasterd from text escaped with HTMLEscapeString), by
+   quoting mode ---- *)
+(* quoted (double or single): for EVERY string the value an HTML tokenizer reads is exactly the escaped text,
+   whatever follows the closing quote *)
+Theorem c18_hand_attr_quoted_inert : forall s rest,
+  attr_read (hand_attr QDouble s ++ rest) = html_escape s /\
+  attr_read (hand_attr QSingle s ++ rest) = html_escape s.
+Proof. exact hand_attr_quoted_inert. Qed.
+Print Assumptions c18_hand_attr_quoted_inert.
+
+(* unquoted: read whole only for text without a blank or '>' ... *)
+Theorem c18_hand_attr_unquoted_blankfree : forall s c rest, has unq_end s = false -> unq_end c = true ->
+  attr_read (hand_attr QUnquoted s ++ c :: rest) = html_escape s.
+Proof. exact hand_attr_unquoted_blankfree. Qed.
+Print Assumptions c18_hand_attr_unquoted_blankfree.
+
+(* ... and refuted in general: HTMLEscapeString does not escape blanks, so in an UNQUOTED position a blank ends the
+   value and the rest of the request text becomes attributes (the same text double-quoted is read whole) *)
+Theorem c18_hand_attr_unquoted_refuted : exists s,
+  attr_read (hand_attr QUnquoted s ++ [62]) <> html_escape s /\
+  unq_safe (html_escape s) = false /\
+  attr_read (hand_attr QDouble s ++ [62]) = html_escape s.
+Proof. exact hand_attr_unquoted_refuted. Qed.
+Print Assumptions c18_hand_attr_unquoted_refuted.
